@@ -61,7 +61,7 @@ def policy_of(p):
 
 def execute(ctx, sc):
     return txnlib.run_scenario(ctx.scratch, copy.deepcopy(sc['threads']), fault=tuple(sc['fault']) if sc.get('fault') else None,
-                               policy=policy_of(sc.get('policy', ['seq'])))
+                               policy=policy_of(sc.get('policy', ['seq'])), timeout=0.3)
 
 
 def scenarios(ctx, space):
@@ -176,9 +176,7 @@ def run(ctx):
     accepted = 0
     nontrivial = 0
     for (sc, o), r in zip(items, results[:nreal]):
-        if o['unexpected']:
-            raise MachineryError('DB-API call failed without an injected fault in %r: %r' % (sc['name'], o['unexpected'][:2]))
-        if r['accepted'] and not o['stuck'] and not any(e.startswith('AssertionError') for e in o['errors'].values()):
+        if r['accepted'] and not o['stuck'] and not o['unexpected'] and not any(e.startswith('AssertionError') for e in o['errors'].values()):
             accepted += 1
             if sc.get('fault') or len(sc['threads']) > 1:
                 nontrivial += 1
@@ -267,6 +265,8 @@ def report(ctx, sc, o, r):
         return
     if o['stuck']:
         sig = 'C19:%s:fault@%s:blocked' % (sc['name'], fault_name(o))
+    elif o['unexpected']:       # a DB-API call failed although no fault was injected there (e.g. "database is locked")
+        sig = 'C19:%s:fault@%s:spontaneous-%s-failure' % (sc['name'], fault_name(o), o['unexpected'][0][2] if o['unexpected'][0][1] == 'exec' else o['unexpected'][0][1])
     elif r['inv']:
         sig = 'C19:%s:fault@%s:%s' % (sc['name'], fault_name(o), r['inv'][1])
     else:
@@ -286,9 +286,9 @@ def describe(sc, o, r):
     evs = o['trace']['evs']
     lo = max(0, r['reached'] - 6)
     window = [txnlib.brief(e) for e in evs[lo:r['reached'] + 1]]
-    return ('scenario %r fault=%r policy=%r: trace of %d events matched up to %d; invariant=%r; first unmatched event=%r; '
+    return ('scenario %r fault=%r policy=%r unexpected DB-API failures=%r: trace of %d events matched up to %d; invariant=%r; first unmatched event=%r; '
             'stuck=%r worker errors=%r; events before: %r' % (
-                sc['name'], o['fault_hit'], sc.get('policy'), r['len'], r['reached'] - 1, r['inv'],
+                sc['name'], o['fault_hit'], sc.get('policy'), o['unexpected'][:2], r['len'], r['reached'] - 1, r['inv'],
                 r['first_unmatched'] and txnlib.brief(r['first_unmatched']), o['stuck'], o['errors'], window))
 
 
